@@ -731,9 +731,15 @@ pub fn judge_c19(ctx: &Ctx, h: &History, trace: &Trace) -> Vec<Violation> {
             }
         }
     }
+    // If the library itself cannot open the database on this directory there is nothing for the
+    // program to print faithfully; that is C15's business, not a printing defect.
+    let library_opens = trace.steps.iter().filter_map(|s| s.child.as_ref()).flat_map(|c| builds(c)).any(|b| b.mode == "disk" && b.error.is_none());
     let mut seen: BTreeMap<(String, bool), (usize, String)> = BTreeMap::new();
     for (i, s) in h.steps.iter().enumerate() {
         let Step::Cli { query, exact, describe, env } = s else { continue };
+        if !library_opens {
+            continue;
+        }
         let Some(c) = trace.steps.get(i).and_then(|s| s.child.as_ref()) else { continue };
         if env.iter().any(|(k, _)| k.starts_with("ANYTHING_VERIF_")) {
             continue; // a deliberately disturbed run prints whatever it got to
